@@ -22,7 +22,7 @@ def model_check(ctx):
     import re
     never = []
     for act in ("Pick01", "Pick02", "Before", "Initial", "FilterBefore", "Upstream", "FilterAfter", "Log",
-                "Boot", "Ask", "Repeat", "Reconfigure", "Finish"):
+                "Boot", "Ask", "Repeat", "Reconfigure", "ReconfigureFails", "ProtAPI", "Finish"):
         # TLC prints interim coverage every minute: the LAST report is the final one
         ms = re.findall(r"<%s line \d+, col \d+ to line \d+, col \d+ of module DnsPipeline>: (\d+):(\d+)" % act, out)
         if not ms or int(ms[-1][1]) == 0:
@@ -67,7 +67,9 @@ def flag_sig(cfg):
     on ONE server."""
     cl = dict(cfg["client"])
     cl.pop("known")
-    return json.dumps([cfg["prot"], cfg["filt"], cfg["svc"], cfg["aaaaOff"], cfg["cache"], cl], sort_keys=True)
+    # (the protection state is NOT part of it: the walks switch it through the two
+    # protection APIs)
+    return json.dumps([cfg["filt"], cfg["svc"], cfg["aaaaOff"], cfg["cache"], cl], sort_keys=True)
 
 
 def make_walks(cfgs, rng, kind, length=4, extra=()):
@@ -86,9 +88,15 @@ def make_walks(cfgs, rng, kind, length=4, extra=()):
         for j in range(0, len(g), length):
             chunk = g[j:j + length]
             steps = chunk + ([chunk[0]] if len(chunk) > 1 else [])
-            walks.append({"kind": kind, "i": len(walks),
-                          "steps": [dict({"ci": c["i"], "cfg": c["cfg"], "tab": c["tab"]},
-                                         **{k: c[k] for k in extra if k in c}) for c in steps]})
+            steps = [dict({"ci": c["i"], "cfg": c["cfg"], "tab": c["tab"]},
+                          **{k: c[k] for k in extra if k in c}) for c in steps]
+            if rng.randrange(4) == 0:
+                # DnsPipeline!ReconfigureFails: after one of the steps a rebuild of the
+                # engines fails (a fault is injected); nothing changes, so the same
+                # configuration and tables are expected once more
+                j = rng.randrange(len(steps))
+                steps.insert(j + 1, dict(steps[j], fail=True))
+            walks.append({"kind": kind, "i": len(walks), "steps": steps})
     return walks
 
 
@@ -102,6 +110,7 @@ def replay_with_confirmation(ctx, test, files, header, walks, tag):
     stats = {"walks": sum(s["walks"] for s in summ), "configs": sum(s["configs"] for s in summ),
              "evals": sum(s["evals"] for s in summ), "udp": sum(s.get("udp", 0) for s in summ),
              "reconfigurations": sum(s.get("reconfigurations", 0) for s in summ),
+             "faults": sum(s.get("faults", 0) for s in summ),
              "flaky": 0, "skipped": sum(r.get("configs", 1) for r in skips),
              "samples": [r for r in rows if r.get("kind") == "sample"][:3]}
     bad = [r for r in rows if r.get("kind") == "bad"]
